@@ -30,7 +30,7 @@ HERE = os.path.dirname(os.path.abspath(__file__))
 
 
 def plan(tier, seed):
-    n = 5 if tier == "quick" else 130
+    n = 7 if tier == "quick" else 300
     return [{"name": "s%d" % i, "seed": seed, "shard": i, "n": n} for i in range(NSHARDS)]
 
 
